@@ -1,7 +1,7 @@
 #!/usr/bin/env python3
 """Regenerates /verif/MANIFEST.json. CLAIMED lists the properties whose check is built and passing."""
 import json, subprocess
-CLAIMED = ["C01", "C02", "C03", "C04", "C05", "C06", "C07", "C08", "C09", "C10", "C11", "C13", "C14", "C15", "C16", "C17", "C18", "C19", "C20"]
+CLAIMED = ["C01", "C02", "C03", "C04", "C05", "C06", "C07", "C08", "C09", "C10", "C11", "C12", "C13", "C14", "C15", "C16", "C17", "C18", "C19", "C20"]
 HOOK_COMMITS = ["a7d5338", "ad662b0"]
 T = {
  "C01": ("token-sequence DFS with exact dead-prefix pruning + signal-placement matrix + byte strings + edit neighbourhoods, outcome-class oracle", "4 (C01)"),
